@@ -1,0 +1,23 @@
+//go:build verif
+
+// Contracts for govc (see /verif/DESIGN.md). Comment-only; compiled only with -tags verif.
+
+package ttruncate
+
+//@ property C15 C07 C12
+
+// a value of at most max+len(suffix) bytes is left alone; a longer one becomes (clean prefix of at most max bytes) ++ suffix,
+// never longer than max+len(suffix); the prefix up to the last ASCII byte within the first max bytes is preserved. No
+// precondition on where the value's bytes live: the transform must not write through the field value (C12: constants,
+// shared strings).
+//@ func (tf *truncateTransform) Transform(record *base.LogRecord) base.FilterResult
+//@   requires tf != nil && record != nil && 0 <= tf.keyLocator && tf.keyLocator < len(record.Fields) && tf.maxLength > 0 && len(tf.suffix) > 0
+//@   modifies record.Fields[tf.keyLocator]
+//@   ensures  result == base.PASS
+//@   ensures[short-values-untouched] len(old(record.Fields[tf.keyLocator])) <= tf.maxLength + len(tf.suffix) ==> record.Fields[tf.keyLocator] === old(record.Fields[tf.keyLocator])
+//@   ensures[long-values-cut] len(old(record.Fields[tf.keyLocator])) > tf.maxLength + len(tf.suffix) ==>
+//@        len(tf.suffix) <= len(record.Fields[tf.keyLocator]) && len(record.Fields[tf.keyLocator]) <= tf.maxLength + len(tf.suffix)
+//@   ensures[ends-with-suffix] len(old(record.Fields[tf.keyLocator])) > tf.maxLength + len(tf.suffix) ==>
+//@        occ(record.Fields[tf.keyLocator], len(record.Fields[tf.keyLocator]) - len(tf.suffix), tf.suffix)
+//@   ensures[ascii-prefix-kept] len(old(record.Fields[tf.keyLocator])) > tf.maxLength + len(tf.suffix) ==>
+//@        forall i int, k int :: 0 <= i && i <= k && k < tf.maxLength && old(record.Fields[tf.keyLocator])[k] <= 127 ==> record.Fields[tf.keyLocator][i] == old(record.Fields[tf.keyLocator])[i]
